@@ -80,6 +80,17 @@ func verifStr(name string, minLen, maxLen int, forbid string) string {
 	return s
 }
 
+// verifEnum is a string input ranging over a finite vocabulary.
+func verifEnum(name string, vocab ...string) string {
+	if raw, ok := verifLoad().Inputs[name]; ok {
+		var v string
+		if err := json.Unmarshal(raw, &v); err == nil {
+			return v
+		}
+	}
+	return vocab[0]
+}
+
 func verifAssume(c bool) {
 	if !c {
 		panic(verifAssumeFailed{})
